@@ -85,6 +85,49 @@ func checkBits(c bcase) *mc.Failure {
 	})
 }
 
+// checkLongBits: a slice of l bytes at alignment a, all zero except (pos >= 0)
+// one non-zero byte at pos.
+func checkLongBits(l, a, pos int, guard byte) *mc.Failure {
+	return mc.GuardT("mbits-long", []int{l, a, pos, int(guard)}, func() *mc.Failure {
+		big := make([]byte, l+48)
+		for i := range big {
+			big[i] = guard
+		}
+		data := big[16+a : 16+a+l : 16+a+l]
+		for i := range data {
+			data[i] = 0
+		}
+		lead, trail := l, l
+		if pos >= 0 {
+			data[pos] = 0x40
+			lead, trail = pos, l-1-pos
+		}
+		if g := mbits.LeadingZeroes(data); g != lead {
+			return mc.Failf(0, "LeadingZeroes(len %d, align %d, only byte %d non-zero, guard %#x) = %d, want %d", l, a, pos, guard, g, lead)
+		}
+		if g := mbits.TrailingZeroes(data); g != trail {
+			return mc.Failf(0, "TrailingZeroes(len %d, align %d, only byte %d non-zero, guard %#x) = %d, want %d", l, a, pos, guard, g, trail)
+		}
+		for i := range data {
+			data[i] = 0xA5
+		}
+		if g := mbits.Zero(data); g != l {
+			return mc.Failf(0, "Zero(len %d) returned %d", l, g)
+		}
+		for i, b := range data {
+			if b != 0 {
+				return mc.Failf(0, "Zero(len %d, align %d) left byte %d = %#x", l, a, i, b)
+			}
+		}
+		for i, b := range big {
+			if (i < 16+a || i >= 16+a+l) && b != guard {
+				return mc.Failf(0, "Zero(len %d, align %d) wrote outside the slice at relative offset %d", l, a, i-16-a)
+			}
+		}
+		return nil
+	})
+}
+
 // ---------------- Trunc ----------------
 
 type tcase struct {
@@ -245,6 +288,23 @@ func main() {
 						whole++
 					}
 				}
+				// long slices (several words, loop unrolling thresholds): all-zero and
+				// a single non-zero byte at every position, at every alignment
+				var longc int64
+				mc.ParallelFor(8, r.Workers, func(a int) {
+					for _, l := range mc.Pick(r, []int{23, 24, 31, 32, 33, 63, 64, 65, 127, 128, 129, 300}, []int{23, 24, 31, 32, 33, 63, 64, 65, 127, 128, 129, 255, 256, 257, 511, 512, 513, 1000, 4097}) {
+						for pos := -1; pos < l; pos++ {
+							for _, g := range []byte{0x00, 0xFF} {
+								if f := checkLongBits(l, a, pos, g); f != nil {
+									r.Violation(mc.Case{Harness: "mbits-long", Trace: mc.J([]int{l, a, pos, int(g)}), Msg: f.Msg})
+								}
+								atomic.AddInt64(&longc, 1)
+							}
+						}
+					}
+				})
+				r.Count("long_slice_cases", longc)
+				evals += longc
 				r.AddEval(evals+whole, evals+whole, evals+whole, word)
 				r.Bound("max_len", maxLen)
 				r.Bound("alignments", 8)
@@ -263,6 +323,17 @@ func main() {
 			},
 		},
 		mc.Harness{
+			Name:    "mbits-long",
+			Explore: func(r *mc.Run) {},
+			Replay: func(c mc.Case) *mc.Failure {
+				var v []int
+				if err := mc.Unmarshal(c.Trace, &v); err != nil || len(v) != 4 {
+					return mc.Failf(-1, "bad trace")
+				}
+				return checkLongBits(v[0], v[1], v[2], byte(v[3]))
+			},
+		},
+		mc.Harness{
 			Name: "trunc",
 			Explore: func(r *mc.Run) {
 				runes := []string{"a", "é", "€", "😀"}
@@ -273,6 +344,11 @@ func main() {
 						s += runes[i]
 					}
 					strs = append(strs, s)
+				}
+				for _, unit := range []string{"a", "é", "€", "😀", "aé€😀", "😀a"} {
+					for _, reps := range []int{8, 33, 100} {
+						strs = append(strs, strings.Repeat(unit, reps))
+					}
 				}
 				bytesAlpha := string([]byte{0x61, 0x80, 0xC3, 0xE2, 0xF0})
 				strs = append(strs, allStrings(bytesAlpha, mc.Pick(r, 6, 7))...)
